@@ -398,6 +398,23 @@ class ServerWorld:
         self.ev.append(dict(ev="rechal", now=self.now(), c=cid))
         return True
 
+    def inner_hello(self, cid):
+        """a connected peer (it completed the handshake honestly - that needs no credentials) sends ONE sealed datagram that bundles an application message
+        with a CLIENT_HELLO-typed message carrying a fresh public key.  The datagram is genuine and must be accepted; the hello inside it is not a handshake."""
+        C = self.C
+        c = self.clients[cid]
+        conn = c["cl"].conn
+        if conn is None or not conn.session_key_bytes:
+            return False
+        self.uniq += 1
+        conn._send_type(C.PacketType.APP, self.aid(c["addr"]).to_bytes(4, "big") + b"DATA" + self.uniq.to_bytes(4, "big"), C.RetryMode.NONE, None)      # (12 bytes: both messages fit one datagram)
+        hello = C.HandshakeClientHelloMessage()
+        hello.client_pubkey = impl.mod("crypto").EllipticCurvePrivateKey.new().getPublicKey()
+        hello.client_version = conn.version
+        conn._send_type(C.PacketType.CLIENT_HELLO, hello.dumpb(), C.RetryMode.NONE, None)
+        self.ev.append(dict(ev="innerhello", now=self.now(), c=cid))
+        return True
+
     def remove_client(self, cid):
         self.ev.append(dict(ev="cgone", now=self.now(), c=cid))
         del self.clients[cid]
